@@ -451,7 +451,7 @@ class Run(_pr.PhaseRun):
     that sample - whether or not the sample had reads there."""
 
     def filter_shapes(self, shapes):
-        return [s for s in shapes if s["old"] is not None and not s["distrust"]]
+        return [s for s in shapes if not s.get("ped") and s["old"] is not None and not s["distrust"]]
 
     def judge(self, e, sc, shape, out, lists, info):
         targets, processed = self.targets(sc), self.processed(sc)
